@@ -1719,6 +1719,16 @@ class Interp:
                 return self.run_function(f, args, kwargs)
             finally:
                 self._inline_depth -= 1
+        if f.node is not None and isinstance(f.node, ast.AsyncFunctionDef):
+            # calling a native coroutine function runs NOTHING of its body: it only creates the coroutine object.  The caller is
+            # checked with exactly that meaning (whatever the body would retain, store or emit has not happened when the call
+            # returns); the body itself has no contract, which is reported as a checker error next to whatever the caller's clauses
+            # say -- a pass of the caller alone would say nothing about the new coroutine.
+            self.unverified_units = getattr(self, 'unverified_units', set())
+            self.unverified_units.add(qual)
+            a = VAw(z3.Const(sym.fresh_name('coroutine_object_of_' + qual.replace('.', '_')), sym.Aw))
+            a.bare_coroutine = True
+            return a
         raise Unsupported('call of %s without a contract (and not marked inline)' % qual)
 
     def bind_args(self, node, bound, args, kwargs, qual):
